@@ -39,6 +39,11 @@ type script struct {
 	User  int
 	Box   string
 	Steps []step
+
+	// NoLogin: the connection never authenticates (CAPABILITY / NOOP only, optionally a LOGIN left in the middle of its
+	// literal) and stays open until the server ends it.
+	NoLogin     bool
+	HalfLiteral bool
 }
 
 type scenario struct {
@@ -48,6 +53,7 @@ type scenario struct {
 	Teardown   string   // logout-close, close, removeuser-close, removeuser-files
 	NoParallel bool
 	IdleBulk   time.Duration
+	StreamOn   bool // the connector goes on offering updates during the teardown
 }
 
 // outcome is what the child process reports about one scenario.
@@ -92,6 +98,12 @@ func drawScenario(t *rapid.T) scenario {
 		}
 
 		s.Steps = append(s.Steps, step{Kind: []string{"logout", "abort", "abort-idle", "halfliteral", "stay", "stay"}[rapid.IntRange(0, 5).Draw(t, "end")]})
+
+		if rapid.IntRange(0, 5).Draw(t, "noLogin") == 0 {
+			s.NoLogin, s.HalfLiteral = true, rapid.Bool().Draw(t, "halfLogin")
+			s.Steps = nil
+		}
+
 		sc.Scripts = append(sc.Scripts, s)
 	}
 
@@ -100,17 +112,23 @@ func drawScenario(t *rapid.T) scenario {
 	}
 
 	sc.Teardown = []string{"logout-close", "close", "close", "removeuser-close", "removeuser-files"}[rapid.IntRange(0, 4).Draw(t, "teardown")]
+	sc.StreamOn = rapid.Bool().Draw(t, "streamOn")
 
 	return sc
 }
 
 func (sc scenario) describe() []string {
-	res := []string{fmt.Sprintf("users=%d teardown=%s bulk=%v nopar=%v updates=%v", sc.NUsers, sc.Teardown, sc.IdleBulk, sc.NoParallel, sc.Updates)}
+	res := []string{fmt.Sprintf("users=%d teardown=%s bulk=%v nopar=%v updates=%v streamThroughTeardown=%v", sc.NUsers, sc.Teardown, sc.IdleBulk, sc.NoParallel, sc.Updates, sc.StreamOn)}
 
 	for i, s := range sc.Scripts {
 		var st []string
 		for _, x := range s.Steps {
 			st = append(st, strings.TrimSpace(x.Kind+" "+x.Text))
+		}
+
+		if s.NoLogin {
+			res = append(res, fmt.Sprintf("s%d never logs in (LOGIN left in its literal: %v), stays connected", i, s.HalfLiteral))
+			continue
 		}
 
 		res = append(res, fmt.Sprintf("s%d user%d %s: %s", i, s.User, s.Box, strings.Join(st, "; ")))
@@ -217,6 +235,9 @@ func runScenario(sc scenario) (out outcome) {
 
 	defer b.Destroy()
 
+	// what Server.Close leaves behind is looked at while the context given to Serve is still alive
+	b.KeepContext = true
+
 	// mailboxes and a few messages for every user
 	for _, u := range b.Users {
 		s, err := b.Login("setup", u)
@@ -246,8 +267,55 @@ func runScenario(sc scenario) (out outcome) {
 		marker   int32
 	)
 
+	var (
+		wgStay   sync.WaitGroup
+		released = make(chan struct{}) // closed after the goroutine check that follows Server.Close
+	)
+
 	for i, scr := range sc.Scripts {
 		i, scr := i, scr
+
+		if scr.NoLogin {
+			wgStay.Add(1)
+
+			go func() {
+				defer wgStay.Done()
+
+				c, err := imapc.Dial(b.Addr, fmt.Sprintf("c%d", i), nil, watchdog)
+				if err != nil {
+					return
+				}
+
+				defer c.Close()
+
+				<-start
+
+				if r := c.Cmd("CAPABILITY"); r.Err != nil {
+					return
+				}
+
+				if scr.HalfLiteral {
+					_ = c.Send([]byte("L1 LOGIN {4}\r\n"))
+					_, _ = c.TryReadResponse(50 * time.Millisecond)
+				}
+
+				// the client does not go away by itself: the server has to end the connection
+				for {
+					select {
+					case <-released:
+						return
+					default:
+					}
+
+					if _, err := c.TryReadResponse(50 * time.Millisecond); err != nil {
+						return
+					}
+				}
+			}()
+
+			continue
+		}
+
 		wg.Add(1)
 
 		go func() {
@@ -358,10 +426,31 @@ func runScenario(sc scenario) (out outcome) {
 
 		var last imap.MessageID
 
-		for k, up := range sc.Updates {
+		// with StreamOn the connector keeps offering updates while the teardown runs (an update can then be in flight
+		// between the connector and the goroutine that applies it at the moment the user is closed)
+		streamOn := sc.StreamOn && sc.Teardown != "logout-close" // (that teardown waits for this goroutine first)
+
+		updates := sc.Updates
+		if streamOn {
+			for i := 0; i < 3000; i++ {
+				updates = append(updates, "noop")
+			}
+		}
+
+		deadline := time.Time{}
+
+		for k, up := range updates {
 			select {
 			case <-stop:
-				return
+				if !streamOn {
+					return
+				}
+
+				if deadline.IsZero() {
+					deadline = time.Now().Add(3 * time.Second)
+				} else if time.Now().After(deadline) {
+					return
+				}
 			default:
 			}
 
@@ -395,7 +484,11 @@ func runScenario(sc scenario) (out outcome) {
 				upd = imap.NewNoop()
 			}
 
-			u.Conn.DeliverNow(upd) // not acknowledged after RemoveUser / Close: the watchdog of vconn is the only wait
+			d := u.Conn.DeliverNow(upd) // not acknowledged after RemoveUser / Close: the watchdog of vconn is the only wait
+
+			if k >= len(sc.Updates) && d[0].Err != nil {
+				return // the stream has ended with the server
+			}
 		}
 	}()
 
@@ -444,6 +537,9 @@ func runScenario(sc scenario) (out outcome) {
 
 		time.Sleep(time.Duration(i+1) * time.Millisecond)
 	}
+
+	close(released)
+	within(p, "connections that never logged in finishing", wgStay.Wait)
 
 	if len(left) > 0 && len(p.msgs) == 0 && len(p.inc) == 0 {
 		p.add("C19 violated: %d goroutine(s) with gluon frames are still alive ~20 s after Server.Close returned:\n%s", len(left), strings.Join(left, "\n\n"))
